@@ -42,6 +42,11 @@ impl Toolchain {
         let mut c = Command::new("rustc");
         c.arg("--edition").arg("2024").arg("--crate-type").arg("bin").arg("--crate-name").arg(name.replace('-', "_"));
         c.arg("-L").arg(format!("dependency={}", self.deps)).arg("--extern").arg(format!("gc_arena={}", self.rlib));
+        if let Ok(ex) = std::env::var("GCV_EXTERNS") {
+            for e in ex.split_whitespace() {
+                c.arg("--extern").arg(e);
+            }
+        }
         c.arg("--cap-lints").arg("allow").arg("-A").arg("warnings");
         if link {
             c.arg("-C").arg("opt-level=1").arg("-C").arg("debuginfo=0").arg("-C").arg("panic=unwind");
